@@ -453,9 +453,11 @@ func main() {
 			"(c) all regex bodies of length <= 3 (quick) / 4 (thorough) over 25 characters x all 64 flag sets through regex/parser.Parse, regex.Transpile, value.CompileRegex; " +
 			"(d) every distinct byte prefix of the corpus programs through parser.New().Parse()/IsIncomplete/ShouldIndent and a fresh incremental checker. " +
 			"Every call under recover(); non-trivial = the input contains at least one token; evaluations count front-end entry-point calls",
-		Assume:          []string{"a hang is one front-end call on one input (normally microseconds to milliseconds) still running after 30 s, with an unchanging outer stack over 7 samples; reported as a host-crash of the worker with the looping function in the signature", "method bodies checked one at a time (MethodCheckConcurrencyLimit=1)"},
-		HangIsViolation: true,
-		CaseTimeout:     15 * time.Minute,
+		Assume:           []string{"a hang is one front-end call on one input (normally microseconds to milliseconds) still running after 30 s, with an unchanging outer stack over 7 samples; reported as a host-crash of the worker with the looping function in the signature", "method bodies checked one at a time (MethodCheckConcurrencyLimit=1)"},
+		HangIsViolation:  true,
+		CaseTimeout:      15 * time.Minute,
+		QuickDeadline:    12 * time.Minute,
+		ThoroughDeadline: 60 * time.Minute,
 		Setup: func(c *engine.Ctx) {
 			elkrun.Init()
 			color.NoColor = false // render diagnostics with colours, as a terminal user sees them
